@@ -500,6 +500,13 @@ func (m *metaRun) doStep(st metaStep) {
 		if err := l.UploadDescriptor(ctx, b); err != nil {
 			m.bad("setlabel/error", "ok", err.Error(), "")
 		}
+	case "setlabelcrash":
+		// the client dies before its (After+1)-th write on the versioned metadata store
+		b := e.newBundle(stores, st.Repo, e.ksuidFor(st.Bundle), nil)
+		l := core.NewLabel(core.LabelDescriptor(model.NewLabelDescriptor(model.LabelName(st.Name),
+			model.LabelContributor(model.Contributor{Name: "v", Email: "v@example.com"}))))
+		ctl.CrashStore, ctl.CrashAt, ctl.Before = "vmeta", st.After+1, true
+		_ = l.UploadDescriptor(ctx, b)
 	case "deletelabel":
 		err := core.DeleteLabel(st.Repo, stores, st.Name)
 		got := "ok"
@@ -1041,6 +1048,18 @@ func (m *metaRun) observe(st metaStep) {
 		if !eqInts(got, expIDs) {
 			m.bad(classifyInts("obs/listbundles", expIDs, got), expIDs, got, l.Repo)
 		}
+		// Exists(id) is true exactly for the visible bundles (leftovers of interrupted uploads are not bundles)
+		for _, pb := range post.Bundles {
+			if pb.Repo != l.Repo || (pb.Idx == 0 && !pb.Desc) {
+				continue
+			}
+			ex, err := e.newReaderBundle(stores, l.Repo, e.ksuidFor(pb.ID), nil).Exists(ctx)
+			if err != nil {
+				m.bad("obs/exists-error", pb.Desc, err.Error(), fmt.Sprintf("bundle %d", pb.ID))
+			} else if ex != pb.Desc {
+				m.bad(fmt.Sprintf("obs/exists-wrong/visible=%v", pb.Desc), pb.Desc, ex, fmt.Sprintf("bundle %d (%d index files stored)", pb.ID, pb.Idx))
+			}
+		}
 		// the minimal listing (ids only; the one squash uses) lists the same bundles
 		if mds, err := core.ListBundles(l.Repo, stores, append(e.listOpts(), core.WithMinimalBundle(true))...); err != nil {
 			m.bad("obs/listbundles-minimal-error", "ok", err.Error(), l.Repo)
@@ -1365,6 +1384,8 @@ func compactSteps(steps []metaStep) interface{} {
 				names = append(names, t.P+":"+t.C)
 			}
 			out = append(out, fmt.Sprintf("%s(%s,#%d,{%s},bulk=%d,after=%d)", s.Op, s.Repo, s.ID, strings.Join(names, " "), s.Bulk, s.After))
+		case "setlabelcrash":
+			out = append(out, fmt.Sprintf("setlabelcrash(%s,%s,#%d,after=%d)", s.Repo, s.Name, s.Bundle, s.After))
 		case "setlabel":
 			out = append(out, fmt.Sprintf("setlabel(%s,%s,#%d)", s.Repo, s.Name, s.Bundle))
 		case "squash":
